@@ -21,6 +21,7 @@ IntV32(w) == [t |-> "i", w |-> Lo32(w), h |-> TRUE]
 PtrV(b, o) == [t |-> "p", b |-> b, o |-> o]
 FpV(x) == [t |-> "f", x |-> x]
 LabV(f, l) == [t |-> "l", f |-> f, l |-> l]
+FnV(f) == [t |-> "fn", f |-> f]                 \* address of function f (a reference operand); never observable as a number
 UndefV == [t |-> "u"]
 Bad(why) == [t |-> "x", why |-> why]
 IsBad(v) == v.t = "x"
@@ -56,7 +57,7 @@ StoreMem(mem, ty, b, o, v) ==       \* returns [ok, m, why]
   LET n == TySize(ty) IN
   IF ~InBlock(mem, b, o, n) THEN [ok |-> FALSE, m |-> mem, why |-> "store out of bounds or dead block"]
   ELSE IF v.t = "p" /\ n # 8 THEN [ok |-> FALSE, m |-> mem, why |-> "narrow store of a pointer"]
-  ELSE IF v.t = "l" THEN [ok |-> FALSE, m |-> mem, why |-> "label address stored to memory"]
+  ELSE IF v.t \in {"l", "fn"} THEN [ok |-> FALSE, m |-> mem, why |-> "label or function address stored to memory"]
   ELSE LET new == IF IsFpTy(ty) THEN [i \in 1..n |-> FpC(ty, i, v.x)]
                   ELSE IF v.t = "p" THEN [i \in 1..n |-> [k |-> "p", i |-> i, b |-> v.b, o |-> v.o]]
                   ELSE [i \in 1..n |-> IF v.h /\ i > 4 THEN UndefC ELSE ByteC(WordBytes(v.w)[i])]
@@ -80,6 +81,7 @@ Eval(regs, mem, op) ==
   CASE op.k = "reg" -> RegVal(regs, op.r)
     [] op.k = "imm" -> IntV(op.w)
     [] op.k = "fimm" -> FpV(op.x)
+    [] op.k = "ref" -> FnV(op.f)
     [] op.k = "mem" -> LET a == Addr(regs, op) IN IF IsBad(a) THEN a ELSE LoadMem(mem, op.ty, a.b, a.o)
 
 (* integer value expected: pointers are not numbers; AsInt needs all 64 bits, AsInt32 only the low half *)
@@ -243,6 +245,18 @@ Step ==
             LET args == [i \in 1..Len(I.args) |-> Eval(R, mem, I.args[i])]
                 badarg == {i \in 1..Len(args) : IsBad(args[i])} IN
             IF badarg # {} THEN GoUndef(args[CHOOSE i \in badarg : TRUE].why)
+            ELSE IF I.callee.k = "reg" /\ RegVal(R, I.callee.r).t # "fn" THEN GoUndef("indirect call through something that is not a function address")
+            ELSE IF I.callee.k = "cb"
+            THEN \* external C function ext_cb (id, f, v): logs (id, v) and calls the MIR function f (v); its result is the call's result
+                 IF args[1].t # "i" \/ args[1].h \/ args[2].t # "fn" \/ args[3].t # "i" \/ args[3].h THEN GoUndef("bad callback arguments")
+                 ELSE IF Len(frames) >= 12 THEN GoUndef("call depth bound")
+                 ELSE LET g == prog.funcs[args[2].f] IN
+                      /\ log' = Append(log, <<args[1].w, args[3].w>>)
+                      /\ frames' = Append(SetTop([Top EXCEPT !.ovf = NoOvf]),
+                                          [f |-> args[2].f, pc |-> 1,
+                                           regs |-> [r \in 1..Len(g.regty) |-> IF r = 1 THEN Narrow(g.params[1], args[3]) ELSE UndefV],
+                                           base |-> Len(mem), ovf |-> NoOvf])
+                      /\ UNCHANGED <<mem, status, why, result>>
             ELSE IF I.callee.k = "ext"
             THEN \* external C function ext_i(id, v): logged; result v + id.  Pointers must not escape.
                  IF \E i \in 1..Len(args) : args[i].t # "i" \/ args[i].h THEN GoUndef("non-integer or half-defined value passed to an external")
@@ -252,10 +266,11 @@ Step ==
                               /\ UNCHANGED <<mem, status, why, result>>
                          ELSE /\ frames' = SetTop([Top EXCEPT !.regs[I.res[1].r] = ExtResult(args[1], args[2]), !.pc = nxt, !.ovf = NoOvf])
                               /\ UNCHANGED <<mem, status, why, result>>
-            ELSE LET g == prog.funcs[I.callee.f] IN
+            ELSE LET cf == IF I.callee.k = "reg" THEN RegVal(R, I.callee.r).f ELSE I.callee.f
+                     g == prog.funcs[cf] IN
                  IF Len(frames) >= 12 THEN GoUndef("call depth bound")
                  ELSE /\ frames' = Append(SetTop([Top EXCEPT !.ovf = NoOvf]),
-                                          [f |-> I.callee.f, pc |-> 1,
+                                          [f |-> cf, pc |-> 1,
                                            regs |-> [r \in 1..Len(g.regty) |->
                                                        IF r <= Len(g.params) THEN Narrow(g.params[r], args[r]) ELSE UndefV],
                                            base |-> Len(mem), ovf |-> NoOvf])
